@@ -215,8 +215,11 @@ register(
     "C15",
     lean_modules=["EventppVerif.Properties.C15"],
     theorems=[],
-    suites=[cl_suite("rem", 400, 10000, rule="random ScopedRemover histories over 2 callback lists and 3 remover names: add through remover (append/prepend/insert), remove through "
-                     "remover, reset, setCallbackList, move construction, move assignment (into empty and non-empty removers, self), swap, destruction in any order, "
+    suites=[cl_suite("rem", 400, 10000, variants_quick=("single", "checked", "remdisp", "remqueue"),
+                     variants_thorough=("single", "multi", "spin", "checked", "remdisp", "remqueue", "remqueue_spin"),
+                     rule="random ScopedRemover histories over 2 targets and 3 remover names, for BOTH specialisations of the class - CallbackList targets (seq_cl) and EventDispatcher / EventQueue targets "
+                     "(seq_rem: list l of the script is event 7 of dispatcher / queue object l): add through remover (append/prepend/insert), remove through "
+                     "remover (also of a listener detached directly while its node is held), reset, setCallbackList / setDispatcher, move construction, move assignment (into empty and non-empty removers, self), swap, destruction in any order, "
                      "plus listeners added/removed directly; distinct = distinct canonical output; non-trivial = script moves or swaps removers", nontrivial=nt_rem)],
 )
 
